@@ -5,6 +5,9 @@
 (*   [w, h, dead: seq of <<x, y>>, deadlinks: seq of <<x, y, l>>, ev]      *)
 (* Events: <<"tree", t>> with t a record as described in RoutingTree.tla   *)
 (* (one per net), and finally <<"ok">> or <<"raise", exception class>>.    *)
+(* <<"notree", ..>>: the returned mapping has no entry for a net of the    *)
+(* call; <<"malformed", ..>>: the entry is not a tree of chips, links and  *)
+(* the call's own vertices (the driver could not even write it down).      *)
 (* st = the machine record, built once per trace.                          *)
 (***************************************************************************)
 EXTENDS RoutingTree, Json, IOUtils
@@ -29,6 +32,9 @@ Checks(e) ==
          LeavesExact  |-> LeavesExact(t),
          SinkChipsInTree |-> SinkChipsInTree(t)]
     [] e[1] = "ok" -> [Closed |-> TRUE]
+    \* "for every net the router returns a tree"
+    [] e[1] = "notree" -> [EveryNetHasATree |-> FALSE]
+    [] e[1] = "malformed" -> [TreeIsWellFormed |-> FALSE]
     [] e[1] = "raise" ->
         [OnlyDisconnectedError |-> e[2] = "MachineHasDisconnectedSubregion",
          \* the only permitted failure, and only on a machine that really is disconnected
